@@ -228,6 +228,10 @@ fn handpicked() -> Vec<String> {
     .map(|s| s.to_string())
     .collect()
 }
+/// deep inputs: only for the push-vs-iterator comparison (their histories would be too many)
+fn deep_inputs() -> Vec<String> {
+    vec![format!("{}a\n", "- ".repeat(255)), format!("{}a\n", "- ".repeat(256)), format!("{}a\n", "- ".repeat(300)), format!("{}a\n", "? ".repeat(300)), format!("{}{}a{}\n", "- ".repeat(100), "[".repeat(200), "]".repeat(200)), format!("{}[\n", "- ".repeat(300)), format!("{}a\n", "- ? ".repeat(200))]
+}
 
 pub fn replay(case: &Value) -> Result<Acc, String> {
     let mut acc = Acc::default();
@@ -320,6 +324,7 @@ pub fn check(tier: Tier) -> i32 {
     rep.acc.evals += states;
     rep.scope(&format!("peek/next histories over {ncases} inputs"), states, done);
     // ---- (2) push ----
+    pool.extend(deep_inputs());
     let (acc, d) = par_blocks(pool.len() as u64, &budget, |b, acc| eval_push(&pool[b as usize], acc));
     let c = acc.evals;
     rep.acc.merge(acc);
